@@ -783,7 +783,7 @@ pub fn run<KD: Kind, const N: usize>(case: &Case, cx: &mut Ctx) {
 
 /// Dispatch on (kind, capacity).
 pub fn run_dyn(case: &Case, cx: &mut Ctx) {
-    use mmv_base::kinds::{Large, NoDrop, PathK, Plain, Str, Tagged, Tracked, ZstBoth, ZstDrop, ZstKey, ZstVal};
+    use mmv_base::kinds::{FatTag, Large, NoDrop, PathK, Plain, Str, Tagged, Tracked, ZstBoth, ZstDrop, ZstKey, ZstVal};
     let n = mmv_base::capacity_of(case);
     match case.kind % mmv_base::case::NKINDS {
         0 => mmv_base::by_cap!(run, Tracked, n, case, cx, [0, 1, 2, 3, 4, 6, 9, 17, 32, 33, 64, 70]),
@@ -796,6 +796,7 @@ pub fn run_dyn(case: &Case, cx: &mut Ctx) {
         7 => mmv_base::by_cap!(run, ZstBoth, n, case, cx, [0, 1, 2]),
         8 => mmv_base::by_cap!(run, Tagged, n, case, cx, [0, 1, 2, 3, 4, 6, 9]),
         10 => mmv_base::by_cap!(run, ZstDrop, n, case, cx, [0, 1, 2]),
+        11 => mmv_base::by_cap!(run, FatTag, n, case, cx, [0, 1, 2, 3, 4, 6]),
         _ => mmv_base::by_cap!(run, PathK, n, case, cx, [0, 1, 2, 3, 4, 6]),
     }
 }
